@@ -74,10 +74,14 @@ Schema(c) ==
                      \* every remaining member kind x nullable
                      Tag("tql", TRef("Q")), Tag("tr", TNull(TRef("R"))), Tag("tto", TNull(TRef("P"))),
                      Tag("tuo", TNull(TRef("K"))), Tag("tm", TMap(I32b)),
-                     Tag("tlo", TNull(TList(I32b, 1, 2))), Tag("ta", TRef("A")), Tag("th", TRef("H"))>>)) @@
-    ("V" :> DUnion("nsa", "U", c.uc, <<Tag("tw", TNull(TRef("A"))), Tag("tx", TVoid)>>))
+                     Tag("tlo", TNull(TList(I32b, 1, 2))), Tag("ta", TRef("A")), Tag("th", TRef("H")),
+                     \* a tag named like a field of its (flattened) struct member: C has a field g1 that encodes as an object
+                     Tag("g1", TRef("C"))>>)) @@
+    ("V" :> DUnion("nsa", "U", c.uc, <<Tag("tw", TNull(TRef("A"))), Tag("tx", TVoid)>>)) @@
+    \* a third level: only the root of a chain of open unions owns the catch-all
+    ("W" :> DUnion("nsa", "V", c.uc, <<Tag("ty", TVoid), Tag("tz", TRef("L"))>>))
 
-UserRoots == {"A", "K", "L", "E", "S", "C", "P", "U", "V", "H", "M", "Q"}
+UserRoots == {"A", "K", "L", "E", "S", "C", "P", "U", "V", "W", "H", "M", "Q"}
 Roots == {TRef(n) : n \in UserRoots}
          \cup {TList(TRef(n), 1, 2) : n \in {"S", "U", "P"}}
          \cup {TMap(TRef(n)) : n \in {"C", "V"}}
